@@ -166,9 +166,14 @@ def gen_square_family(rng, n, kind):
     """-> (A, B for mldivide (n x nb), Brd for mrdivide (mb x n))"""
     nb = rng.randint(1, 2)
     A = rand_matrix(rng, n, n)
+    if n >= 2 and kind in ("random", "graded") and rng.random() < 0.6:
+        # With the metric |s_i| / rowmax_i every row whose largest entry stands in column 0 has
+        # metric exactly 1 there (an exact tie, not compared).  Put the row maximum elsewhere.
+        for row in A:
+            row[rng.randrange(1, n)] = (Fraction(rng.choice([-1, 1]) * rng.randint(40, 56)), dy(rng, 8))
     if kind == "graded":
-        # entries decay by powers of two along rows and columns (exact)
-        A = [[(a * Fraction(2) ** (-2 * (i + j)), b * Fraction(2) ** (-2 * (i + j))) for j, (a, b) in enumerate(row)]
+        # entries graded by powers of two along rows (decaying) and columns (growing), exact
+        A = [[(a * Fraction(2) ** (-3 * i + 2 * j), b * Fraction(2) ** (-3 * i + 2 * j)) for j, (a, b) in enumerate(row)]
              for i, row in enumerate(A)]
     elif kind == "rankdef" and n >= 2:
         # last row = dyadic combination of the others (exactly singular, exact in binary64)
@@ -590,13 +595,13 @@ def run(ctx):
             if well:
                 if not be <= bound:
                     be_bad.append((idx, name, be, bound, cond))
-                elif not fe <= 1e3 * n * EPS * cond * 10:
+                if not fe <= 1e3 * n * EPS * cond * 10:
                     fe_bad.append((idx, name, fe, cond))
-                else:
+                if be <= bound and fe <= 1e3 * n * EPS * cond * 10:
                     ctx.count(("ok", name, idx), 0)
             dm = mres["det"]
             dc = cres["det"]
-            if well and not cabsf((Fraction(dc[0]) - dm[0], Fraction(dc[1]) - dm[1])) <= 1e-9 * cabsf(dm):
+            if well and not (finite(dc) and cabsf((Fraction(dc[0]) - dm[0], Fraction(dc[1]) - dm[1])) <= 1e-9 * cabsf(dm)):
                 det_bad.append((idx, name, dc, (float(dm[0]), float(dm[1]))))
         if idx % 37 == 0:
             ctx.sample({"n": n, "kind": c["kind"], "rel": c["rel"], "model_pivots": m_lu["piv"], "c_pivots": c_lu["piv"],
